@@ -13,8 +13,9 @@ MATCHERS = {}
 
 
 def regen():
-    from translate import named, strhelpers, parsersrc, convstr
+    from translate import named, strhelpers, parsersrc, convstr, parserseq
     named.generate()
+    parserseq.generate()        # CmGen/ParserSeq.lean: the sequence branch and the dispatch (CmProps/C07whole.lean composes it with the string branch)
     from translate import hexsrc
     hexsrc.generate()           # CmGen/HexSrc.lean: hex_to_rgb, the number-token pattern and _extract_number_tokens as they read now (CmProps/C07hex.lean)
     convstr.generate()          # CmGen/ConvStr.lean: the input parsing of hsl_to_rgb as it reads now (CmProps/C07conv.lean)
